@@ -4,6 +4,7 @@ import SmVerif.Model.Lookup
 import SmVerif.Model.V3Spec
 import SmVerif.Model.Paths
 import SmVerif.Model.DrvRam
+import SmVerif.Model.DrvAdjust
 import SmVerif.Model.DrvSv
 /-
 Line-protocol driver: one case per input line, one output line per case:
@@ -174,6 +175,7 @@ def handle (toks : List String) : String :=
     else if op.startsWith "map." then handleMap toks
     else if op.startsWith "ram." then DrvRam.handleRam toks
     else if op.startsWith "sv." then DrvSv.handleSv toks
+    else if op.startsWith "adj." then DrvAdjust.handleAdj toks
     else if op.startsWith "bytes." then "*\tsafe\t1"
     else handleMisc toks
 
